@@ -977,3 +977,82 @@ add('C07', 'twin', 'timezone-getinitargs', [(S, '''    offset = tz.utcoffset(Non
     if zone_name == default_name:
         return pretty_call_alt(ctx, timezone, args=(offset, ))
     return pretty_call_alt(ctx, timezone, args=(offset, zone_name))''')])
+
+# ----------------------------------------------------------------------------- C09
+add('C09', 'breaker', 'dangling-comma-after-comment-again', [(P, '''    if dangle and not comma_before_last_comment:
+        parts.append(COMMA)''', '''    if dangle:
+        parts.append(COMMA)'''), (P, 'needs_comma = not last or comma_before_last_comment', 'needs_comma = not last')], 'C09.c')
+add('C09', 'breaker', 'flat-comment-no-hardline', [(P, '''                '  ',
+                commentdoc(comment_str),
+                HARDLINE if not last else NIL
+            ])''', '''                '  ',
+                commentdoc(comment_str),
+                LINE if not last else NIL
+            ])''')], 'C09.c')
+add('C09', 'twin', 'fncall-comment-then-line-equivalent', [(P, 'part = concat([part, HARDLINE if has_comment else LINE])', 'part = concat([part, LINE])')])
+add('C09', 'breaker', 'dict-trailing-comment-no-break', [(P, '''    has_comment = bool(trailing_comment)
+
+    sorted_keys = (''', '''    has_comment = False
+
+    sorted_keys = (''')], 'C09.c')
+add('C09', 'breaker', 'dict-value-comment-flat-comma-lost', [(P, '''                    when_flat=concat([
+                        vdoc,
+                        NIL if last else COMMA,
+                        '  ',
+                        commentdoc(vcomment),''', '''                    when_flat=concat([
+                        vdoc,
+                        NIL,
+                        '  ',
+                        commentdoc(vcomment),''')], 'C09.e')
+add('C09', 'breaker', 'broken-variant-drops-element', [(P, '''            broken_version = concat([
+                commentdoc(comment_str),
+                HARDLINE,
+                doc,
+                COMMA if needs_comma else NIL,''', '''            broken_version = concat([
+                commentdoc(comment_str),
+                HARDLINE,
+                COMMA if needs_comma else NIL,''')], 'C09.e')
+add('C09', 'breaker', 'comment-text-into-doc', [(P, '''                    when_flat=concat([
+                        part,
+                        '  ',
+                        commentdoc(comment_str)
+                    ]),''', '''                    when_flat=concat([
+                        part,
+                        '  # ',
+                        comment_str
+                    ]),''')], 'C09.a')
+add('C09', 'breaker', 'wrapped-comment-line-no-hash', [(P, '''                        concat([
+                            HARDLINE,
+                            '# ',
+                        ])''', '''                        concat([
+                            HARDLINE,
+                            '  ',
+                        ])''')], 'C09.b')
+add('C09', 'breaker', 'comment-line-without-hash', [(P, '''            concat([
+                '# ',
+                prefix,
+                fill(alternating_words_ws)
+            ])''', '''            concat([
+                prefix,
+                fill(alternating_words_ws)
+            ])''')], 'C09.b')
+add('C09', 'breaker', 'top-level-comment-same-line-after', [(P, '''                when_broken=concat([
+                    commentdoc(doc.annotation.value),
+                    HARDLINE,
+                    doc
+                ])''', '''                when_broken=concat([
+                    commentdoc(doc.annotation.value),
+                    ' ',
+                    doc
+                ])''')], 'C09.c')
+add('C09', 'breaker', 'sequence-drops-trailing-comment', [(P, '''    if trailing_comment:
+        els = chain(els, [commentdoc(trailing_comment)])
+        dangle = False
+''', '''    if trailing_comment:
+        dangle = False
+''')], 'C09.f')
+add('C09', 'twin', 'comma-ifexp-reordered', [(P, 'COMMA if needs_comma else NIL,', 'NIL if not needs_comma else COMMA,', 0)])
+add('C09', 'twin', 'fncall-part-temp', [(P, '''        part = concat([doc, NIL if last else COMMA])
+''', '''        separator = COMMA if not last else NIL
+        part = concat([doc, separator])
+''')])
